@@ -5,7 +5,8 @@
 dir=$1; tier=$2; shift 2
 mkdir -p "$dir"
 if [ ! -d "$dir/src" ]; then git -C /repo worktree add -q --detach "$dir/src" HEAD || exit 2; fi
-export KEVO_SRC=$dir/src VERIF_BIN=$dir/bin VERIF_OUT=$dir/out
+rm -rf "$dir/mc"; cp -r /verif/mc "$dir/mc"
+export KEVO_SRC=$dir/src VERIF_BIN=$dir/bin VERIF_OUT=$dir/out VERIF_MC=$dir/mc
 for id in "$@"; do
   /usr/bin/time -f "$id wall=%es" /verif/scripts/check.sh "$id" "$tier" > "$dir/$id.$tier.out" 2>&1
   echo "$id exit=$? $(tail -1 "$dir/$id.$tier.out" | cut -c1-200)"
